@@ -38,11 +38,12 @@ def run_prop(prop: str, repo_root: str, tier: str = "quick") -> Tuple[str, List[
     try:
         repo = Repo(repo_root)
         ctx = Ctx(prop, tier, repo, 0)
-        with contextlib.redirect_stdout(io.StringIO()):
-            mod.run(ctx)
-        for rid, mn in ctx.minimum.items():
-            if ctx.count(rid) < mn:
-                return (f"error: rule {rid} found {ctx.count(rid)} < {mn} instances", [])
+        err = None
+        try:
+            with contextlib.redirect_stdout(io.StringIO()):
+                mod.run(ctx)
+        except AnalysisError as e:
+            err = str(e)  # what was established before the analysis stopped stands (as in main)
         known = {k["key"] for k in load_known().get("known", []) if k.get("property") == prop}
         seen = set()
         out = []
@@ -50,6 +51,15 @@ def run_prop(prop: str, repo_root: str, tier: str = "quick") -> Tuple[str, List[
             if not o.ok and o.fkey not in known and o.fkey not in seen:
                 seen.add(o.fkey)
                 out.append((o.rule, o.key, o.msg))
+        if out:
+            return ("ok", out)
+        if err is not None:
+            return (f"error: {err}", [])
+        if getattr(ctx, "shared_errors", None):
+            return (f"error: shared rules not evaluated: {ctx.shared_errors[0]}", [])
+        for rid, mn in ctx.minimum.items():
+            if ctx.count(rid) < mn:
+                return (f"error: rule {rid} found {ctx.count(rid)} < {mn} instances", [])
         return ("ok", out)
     except AnalysisError as e:
         return (f"error: {e}", [])
